@@ -43,6 +43,26 @@ R2 = {
  'C16-json-pooled-decoder-leftover':'one frame per codec instance and a stateless decoder stub; the stub now reads ahead and keeps what the parser did not consume in the decoder, `ZZ_C16_JSONTwoFrames` under the precise pool model',
  'C20-inactive-forward-before-release':'"inactive has passed the idle handler" was stamped after the whole event returned and no handler behind it took time or failed; the probe now stamps it on arrival, yields, and may panic',
 }
+R3 = {
+ 'C01-writev-large-split':'vectors above the largest pooled size only went through a single writer on a roomy queue; `ZZ_C01_BigVector`: a 65536/65537-byte two-part vector on a non-blocking queue with exactly one free slot',
+ 'C02-batch-cap-zero-queue1':'first run was killed by the OS (exit 137): the spinning sender incremented unbounded mock counters, so every turn was a new state; the mock counters now saturate (the loop is found as a livelock in 0.1 s) and exploration has a memory budget that ends a job as inconclusive instead of being killed',
+ 'C05-holder-inactive-only-if-registered':'caught by C13 (the holder is its subject); patch rebased after fix 8fb4b08',
+ 'C05-wrapped-neterr-no-close':'the probe raised the read error unwrapped; read-error kind 4 wraps it with %w the way the shipped frame codecs do',
+ 'C07-ctx-gated-exception':'no panic while the parent context had ended but the channel was still open; `ZZ_C07_PanicAfterParentCancel`',
+ 'C07-holder-lock-leak':'no two channels with one id; C13 scenario bit 32 (id factory repeats an id). That scenario first exposed a genuine defect of the unchanged tree (fix 8fb4b08, section 7); with it repaired the seeded change is reported by C13 as a deadlock in CloseAll; patch rebased after the fix',
+ 'C08-delimiter-resume-stale':'a decoder instance was never used again after it had rejected its input; every rejecting exit of the C08 harnesses now hands the same instance a fresh well-formed frame on a new source',
+ 'C09-large-writev-split':'no message above the largest pooled size next to a concurrent writer; one quick job with a 65537-byte vectored message (zero filler between a tag and a symbolic last byte)',
+ 'C11-close-timeout-ignored':'Close arguments were nil / sentinel / wrapped sentinel; timeout net.Error, wrapped timeout and other net.Error added',
+ 'C12-pbuffer-reset-after-put':'the abstract pool never hands an object from one goroutine to another; `ZZ_C19_BufferHandOver` under the precise pool model in race mode, with the edge Put(x) -> Get returning x',
+ 'C14-large-async-write-no-clone':'caught by C10, the property it breaks (snapshot semantics above 65536 bytes)',
+ 'C14-tobytes-reader-offset':'readers were always fresh; carriers 10-12: *bytes.Reader / *strings.Reader / *bytes.Buffer with two bytes already consumed',
+ 'C16-tobytes-append-into-first-piece':'[][]byte pieces were always in-order views; carrier 13 (out-of-order views of one array) in the ToBytes/ToReader harnesses and inbound path 7 of the text harness',
+ 'C18-ctxwritev-deadline-waits':'no context with a deadline (not modelled); `context.WithTimeout/WithDeadline` modelled for deadlines beyond the explored window, every entry point meets the full queue with such a context',
+ 'C19-pbuffer-reset-after-put':'round 2 "caught" the same change only through a false alarm of this work that was removed since (section 10); now: pool operations are scheduling points under the precise model, the object is up for grabs the moment Put stored it, `ZZ_C19_BufferHandOver`',
+ 'C20-active-forward-before-arm':'no handler behind the idle handler that closes the channel while it handles the active event; variant 3',
+ 'C20-write-stamp-after-forward':'every write succeeded; variant with the first write refused further down (transport error) after it passed the idle handler',
+ 'C01-recycle-loopvar-alias':'caught by C10 (same mechanism as a round-1 C10 delivery)',
+}
 rows = []
 for d in sorted(glob.glob('/verif/seeded/*/')):
     m = json.load(open(d + 'meta.json'))
@@ -59,4 +79,4 @@ def table(rnd, notes):
     return '\n'.join(out)
 if __name__ == '__main__':
     import sys
-    print(table(int(sys.argv[1]), R1 if sys.argv[1] == '1' else R2))
+    print(table(int(sys.argv[1]), {'1': R1, '2': R2, '3': R3}[sys.argv[1]]))
